@@ -137,6 +137,7 @@ def cases(tier, rng):
     yield Case("chords.from_shorthand", ["N.C."], "nc", kind=("nc",))
     yield Case("chords.from_shorthand_list", [["Am", "NC", "C7", "Ebdim7", "N.C."]], "list", kind=("list",))
     yield Case("chords.from_shorthand_list", [[]], "list", kind=("list",))
+    yield Case("chords.from_shorthand_list", [["C", "Am7", "NC", "G7"] * 600], "list/long", kind=("list",), model=False)
     yield Case("chords.from_shorthand_list", [[r + k for r in ROOTS10[:3] for k in REPS]], "list", kind=("list",))
     yield Case("chords.tables_sorted", [], "tables", model=False)
     alpha = "mM7#b+sdi69u-aj/|x5"
